@@ -646,6 +646,14 @@ impl<W: Write> Runner<W> {
                 self.m.raw_mut().set_programsize(ps_from_code(ps));
                 self.emit("set_limits", json!({"ss": ss, "ps": if ps < 0 { -1 } else { ps }}), false, None);
             }
+            "clock_bulk" => {
+                // n clock keys without logging each one (millions): the state afterwards is logged for a code-to-code comparison
+                let n = geti(v, "n").unwrap_or(1).max(0) as u64;
+                for _ in 0..n {
+                    self.m.trigger_key_clock();
+                }
+                self.emit("bulk", json!({"n": n}), true, None);
+            }
             "checkpoint" => {
                 let _ = format!("{:?}", self.m);
                 self.emit("checkpoint", json!({}), true, None);
